@@ -283,7 +283,7 @@ func (c04) Run(sc *Scenario) *Verdict {
 	if _, ok := weff.Docs[w.Root]; !ok {
 		weff.Docs[w.Root] = w.Docs[w.Root]
 	}
-	const ucap = 100000
+	const ucap = 3000
 	u := weff.Unfolding(start, false, ucap)
 	if u >= ucap {
 		v.Inconclusive = "unfolding larger than the cap: no budget to hold the call to"
